@@ -155,6 +155,9 @@ fn hazards() -> Vec<(String, Vec<u8>)> {
         ("11-byte varint", vec![0xff, 0xff, 0xff, 0xff, 0xff, 0xff, 0xff, 0xff, 0xff, 0xff, 0x01]),
         ("empty", vec![]),
         ("zero length entry", dir(&[vec![1], vec![1], vec![0], vec![1]], 1)),
+        ("pointer at id 0 followed by id 0", dir(&[vec![0, 0], vec![0, 1], vec![5, 1], vec![1, 0]], 2)),
+        ("tile at id 0 followed by pointer at id 0", dir(&[vec![0, 0], vec![1, 0], vec![1, 5], vec![1, 0]], 2)),
+        ("three entries with zero deltas", dir(&[vec![7, 0, 0], vec![0, 0, 1], vec![5, 5, 1], vec![1, 0, 0]], 3)),
     ];
     for (n, d) in &dirs {
         out.push((format!("dir:{n}"), d.clone()));
@@ -421,6 +424,23 @@ pub fn gen(prop: &str, rng: &mut Rng, quick: bool, st: &mut Stats) -> Option<Vec
                 }
                 archives.insert(1, write_plain("sync", &ops.join(";")).expect("write"));
                 st.bump("archives_with_tiles_over_64k");
+            }
+            // archives of another writer whose metadata section carries padding behind the compressed stream: whatever the
+            // reader makes of it, it must make the same of it under every fragmentation
+            for (k, comp) in [2u8, 3, 4, 1].iter().enumerate() {
+                let mut s2 = Stats::default();
+                let f = gen_foreign(rng, &ForeignOpts { n: 5, depth: (k % 2) as u32, icomp: *comp, permute: false, unordered: false, empty_meta: false, merge_runs: true, unknown_counts: false }, &mut s2);
+                let h = &f.header;
+                let mut meta = f.bytes[h.meta_off as usize..(h.meta_off + h.meta_len) as usize].to_vec();
+                meta.extend_from_slice(&[0u8; 9][..1 + k * 2]);
+                let mut h2 = h.clone();
+                let mut b = f.bytes.clone();
+                h2.meta_off = b.len() as u64;
+                h2.meta_len = meta.len() as u64;
+                b.extend_from_slice(&meta);
+                b[0..127].copy_from_slice(&spec::encode_header(&h2));
+                archives.insert(2, b);
+                st.bump("archives_with_padded_metadata");
             }
             for (k, b) in archives.iter().enumerate() {
                 for mode in ["sync", "async"] {
